@@ -820,6 +820,50 @@ def atomic_family(ctx, drv, n):
     ctx.sample({"atomic-request": A.request_line(cases[0]), "impl": impl[0][0]})
 
 
+def compu_dop_family(ctx, n):
+    """round 8: DATA-OBJECT-PROPs around compu methods of every category (C07's generator, loaded through the XML route): encode of the
+    physical test values of C07, of the values at which the conversion fails for arithmetic reasons (poles of rational functions with a
+    value-dependent denominator, see compu_lib.rejection_values), of NaN / infinities / huge numbers and of wrongly typed values; strict
+    mode: the value is encoded or the rejection is an OdxError"""
+    import math
+    import compu_lib as CL
+    rng = ctx.sub_rng("compu-dop")
+    specials = [float("nan"), float("inf"), float("-inf"), 1e308, -1e308, 2 ** 64, -2 ** 63 - 1, 10 ** 400, None, "1", b"\x01", [1], True]
+    with contextlib.redirect_stdout(io.StringIO()), contextlib.redirect_stderr(io.StringIO()):
+        for i in range(n):
+            cat = ("RAT-FUNC", "SCALE-RAT-FUNC", None, None)[i % 4]
+            desc = CL.gen_desc(rng, cat)
+            if not CL.xml_expressible(desc):
+                ctx.count("compu_dop_not_xml_expressible")
+                continue
+            cm, dop, err = CL.load_xml(desc)
+            if dop is None:
+                ctx.count("compu_dop_not_loaded:" + str(err if cm is None else "string internal type"))
+                continue
+            ivs = CL.internal_values(rng, desc, False)
+            imgs = [r[1] for r in (CL.call(cm, "i2p", x) for x in ivs) if r[0] == "ok"]
+            poles = CL.rejection_values(desc)
+            vals = [("pole", CL.pyval(v)) for v in poles] + [("physical", CL.pyval(v)) for v in CL.physical_values(rng, desc, imgs, False)[:24]] + \
+                   [("special", x) for x in specials]
+            for kind, x in vals:
+                from odxtools.encodestate import EncodeState
+                from odxtools.exceptions import OdxError
+                ctx.histo("family", "compu-dop")
+                outcome = "ok"
+                try:
+                    dop.encode_into_pdu(x, EncodeState(is_end_of_pdu=True))
+                except OdxError:
+                    outcome = "odxerror"
+                except Exception as e:  # noqa
+                    outcome = "foreign:" + type(e).__name__
+                ctx.case(json.dumps([desc, kind, repr(x)], sort_keys=True, default=str), nontrivial=outcome != "ok")
+                ctx.histo("compu-dop outcome", f"{kind}:{desc['cat']}:{outcome.split(':')[0]}")
+                if outcome.startswith("foreign"):
+                    ctx.violate("only-odx-errors", ["compu-dop", desc["cat"], kind, type(x).__name__], outcome,
+                                {"compu_dop": desc, "value": repr(x), "kind": kind},
+                                f"DataObjectProperty.encode_into_pdu({x!r}) of a {desc['cat']} DOP raises {outcome[8:]}, not an OdxError")
+
+
 def run(ctx):
     big = ctx.tier == "thorough"
     rng = ctx.rng
@@ -934,10 +978,24 @@ def run(ctx):
     run_.corr.flush()
     # (f) atomic level
     atomic_family(ctx, ctx.driver("drv_codec"), 60000 if big else 8000)
+    # (g) compu-method DOPs at the values where conversions fail
+    compu_dop_family(ctx, 4000 if big else 500)
 
 
 def replay(ctx, data):
     w = data["witness"]
+    if "compu_dop" in w:
+        import compu_lib as CL
+        from odxtools.encodestate import EncodeState
+        from odxtools.exceptions import OdxError
+        cm, dop, err = CL.load_xml(w["compu_dop"])
+        try:
+            dop.encode_into_pdu(eval(w["value"], {"nan": float("nan"), "inf": float("inf")}), EncodeState(is_end_of_pdu=True))
+        except OdxError:
+            return True
+        except Exception:  # noqa
+            return False
+        return True
     if "op" in w:
         r, exc = A.run_case(w)
         return r != "(err foreign)"
